@@ -1518,6 +1518,74 @@ func (ex *Exec) upperBound(t *Term) uint64 {
 	return 0
 }
 
+// hashProv classifies a byte term: exact = it is exactly one byte of an (ideal) hash output
+// variable; derived = it mentions a hash output variable in some other way; else free.
+func hashProv(t *Term, memo map[int]bool) (v *Term, lo int, exact bool, derived bool) {
+	if t.op == "extract" && t.args[0].op == "var" && strings.HasPrefix(t.args[0].name, "h_") && t.p1-t.p2 == 7 {
+		return t.args[0], t.p2, true, true
+	}
+	return nil, 0, false, mentionsHash(t, memo)
+}
+
+func mentionsHash(t *Term, memo map[int]bool) bool {
+	if r, ok := memo[t.id]; ok {
+		return r
+	}
+	r := false
+	if t.op == "var" && strings.HasPrefix(t.name, "h_") {
+		r = true
+	} else {
+		for _, a := range t.args {
+			if mentionsHash(a, memo) {
+				r = true
+				break
+			}
+		}
+	}
+	memo[t.id] = r
+	return r
+}
+
+// idealMismatch (random-oracle assumption, only when a harness declared verifrt.Ideal()):
+// a run of >= 8 consecutive bytes of one hash/MAC output cannot coincide with bytes that
+// are themselves derived from hash outputs unless they are the same bytes of one output
+// variable at the same positions (then ordinary equality decides). Bytes that are free
+// (attacker chosen, constants) are left to the solver.
+func (ex *Exec) idealMismatch(as, bs []*Term) bool {
+	memo := map[int]bool{}
+	check := func(xs, ys []*Term) bool {
+		// xs must be consecutive exact bytes of one variable (big-endian order: descending lo)
+		v0, lo0, ex0, _ := hashProv(xs[0], memo)
+		if !ex0 {
+			return false
+		}
+		for i, x := range xs {
+			v, lo, e, _ := hashProv(x, memo)
+			if !e || v != v0 || lo != lo0-8*i {
+				return false
+			}
+		}
+		anyDerived := false
+		aligned := true
+		var w0 *Term
+		for i, y := range ys {
+			v, lo, e, d := hashProv(y, memo)
+			if d {
+				anyDerived = true
+			}
+			if !e || lo != lo0-8*i {
+				aligned = false
+			} else if w0 == nil {
+				w0 = v
+			} else if v != w0 {
+				aligned = false
+			}
+		}
+		return anyDerived && !aligned
+	}
+	return check(as, bs) || check(bs, as)
+}
+
 // regionEq builds the boolean "regions have equal length and content".
 func (ex *Exec) regionEq(a, b Region) *Term {
 	c := ex.ctx
@@ -1543,6 +1611,16 @@ func (ex *Exec) regionEq(a, b Region) *Term {
 		ex.unsupported("region comparison over %d bytes", n)
 	}
 	parts := []*Term{lenEq}
+	if guardLen == nil && ex.ideal() && n >= 8 {
+		as := make([]*Term, n)
+		bs := make([]*Term, n)
+		for i := uint64(0); i < n; i++ {
+			as[i], bs[i] = ex.regAt(a, c64(c, i)), ex.regAt(b, c64(c, i))
+		}
+		if ex.idealMismatch(as, bs) {
+			return c.Bool(false)
+		}
+	}
 	for i := uint64(0); i < n; i++ {
 		it := c64(c, i)
 		e := c.Eq(ex.regAt(a, it), ex.regAt(b, it))
